@@ -47,6 +47,21 @@ def plan(tier, seed):
     for a, b in E.chunks(E.n_graphs(5, 2), 64):
         shards.append(("g", 5, 2, False, a, b))
         shards.append(("semi", 5, 2, False, a, b))
+    # value tables in unusual numerical regimes: nearly equal weights (relative gaps of a few 1e-6,
+    # i.e. inside the default tolerances of "approximately equal" tests) and tiny / huge magnitudes
+    for tab in ("near", "tiny", "huge"):
+        for a, b in E.chunks(E.n_graphs(4, 3), 250):
+            shards.append(("gt", 4, 3, tab, a, b))
+        for a, b in E.chunks(E.n_graphs(5, 2), 128):
+            shards.append(("gt", 5, 2, tab, a, b))
+    # a direction-dependent dissimilarity: d(training sample, query) is what the rule uses
+    for a, b in E.chunks(E.n_sequences(4, 4), 64):
+        shards.append(("feat", "1dpos", 4, "pearson", a, b))
+        shards.append(("feat", "1dpos", 4, "kullback_leibler", a, b))
+    # ordinary lattice data at a tiny scale (every distance far below 1e-8)
+    for mt in ("squared_euclidean", "log_squared_euclidean"):
+        for a, b in E.chunks(E.n_sequences(4, 4), 64):
+            shards.append(("feat", "1dtiny", 4, mt, a, b))
     for mt in (QUICK_METRICS if tier == "quick" else THOROUGH_METRICS):
         for a, b in E.chunks(E.n_sequences(9, 3), 243):
             shards.append(("feat", "2d", 3, mt, a, b))
@@ -85,10 +100,17 @@ def query_points(pts):
     return sorted(qs) + [far]
 
 
+TABLES = {"near": [1.0, 1.0 + 3e-6, 1.0 + 6e-6], "tiny": [1e-9, 2e-9, 3.5e-9], "huge": [1e20, 2e20, 3.5e20]}
+
+
 def programs(shard, seed):
     kind = shard[0]
-    if kind in ("wo", "g", "semi"):
-        if kind == "wo":
+    if kind in ("wo", "g", "semi", "gt"):
+        if kind == "gt":
+            _, n1, m, tab, a, b = shard
+            table = TABLES[tab][:m]
+            graphs = (E.matrix_from_ranks(n1, E.graph_ranks(n1, m, gi), table) for gi in range(a, b))
+        elif kind == "wo":
             _, n1, a, b = shard
             table = E.value_table(seed, n1 * (n1 - 1) // 2, zero=(seed % 2 == 1))
             graphs = (E.matrix_from_ranks(n1, r, table) for r in c01.weak_orders(n1)[a:b])
@@ -118,8 +140,15 @@ def programs(shard, seed):
                            "batches": [[q]]}
     else:
         _, lk, n, metric, a, b = shard
-        pts = E.lattice(lk, seed)
+        if lk == "1dpos":
+            pts = E.lattice("1d", seed, positive=True)
+        elif lk == "1dtiny":
+            pts = [tuple(v * 1e-6 for v in p) for p in E.lattice("1d", seed)]
+        else:
+            pts = E.lattice(lk, seed)
         qs = [list(p) for p in query_points(pts)]
+        if lk == "1dpos":
+            qs = [q for q in qs if all(v > 0 for v in q)]
         labs = E.labelings(n)
         for si in range(a, b):
             seq = E.sequence_at(len(pts), n, si)
@@ -211,7 +240,7 @@ def run(shard, seed):
                         for k_, v_ in prog.items()}, 1)
         k += 1
         if v:
-            prev = _PREV.get(_key(prog))
+            prev = _PREV.get(_key(prog)) if _key(prog) is not None else None
             if prev is not None and "previous" not in v["program"]:
                 v["program"] = dict(v["program"], previous=prev)
             res.violations.append(v)
